@@ -89,6 +89,20 @@ def lines(tier):
     for l in [b" GET / HTTP/1.0\r\n", b"GET / HTTP/1.0 \r\n", b"GET / HTTP/1.0\t\r\n", b"\tGET / HTTP/1.0\r\n", b" h / 0\r\n", b"h / 0 \r\n",
               b" gemini://h/\r\n", b"/sel\t+ \r\n", b"/sel\t +\r\n", b"/sel\t\r\n", b"/sel\t\t\r\n", b"/sel\tq\t\r\n", b"\r\n", b"\n", b"", b"\t\r\n", b"\t\t\t\r\n"]:
         add(l)
+    # characters that some notion of "white space" or "line end" strips or splits on, at either edge of a
+    # line of every documented shape
+    edge = [b"\xc2\xa0", b"\xc2\x85", b"\xe2\x80\xa8", b"\xe2\x80\xa9", b"\xe3\x80\x80", b"\xe2\x80\x83", b"\xef\xbb\xbf", b"\x0b", b"\x0c", b"\x1c", b"\x1d", b"\x1e", b"\x1f", b"\x85", b"\xa0", b"\x00"]
+    shapes = [b"GET / HTTP/1.0", b"HEAD /x HTTP/1.1", b"GET /wap/x HTTP/1.0", b"h.example /sel 0", b"h.example / 12", b"gemini://h/p", b"/sel\t+", b"/sel\t$", b"/sel\t!", b"/sel\tquery", b"/sel", b"/sel\tq\t+"]
+    for sh in shapes:
+        for e in edge:
+            for t in TERMS:
+                add(e + sh + t)
+                add(sh + e + t)
+            add(e + sh + e + b"\r\n")
+            # ... and between the fields
+            if b" " in sh:
+                add(sh.replace(b" ", b" " + e, 1) + b"\r\n")
+                add(sh.replace(b" ", e, 1) + b"\r\n")
     return out
 
 
